@@ -121,20 +121,181 @@ Proof.
     + assert (0 < l) as Hp by lra. rewrite (bound_pos l y Hp).
       split; [intros [H _]; right; exact H|intros [H|H]; [discriminate|tauto]].
 Qed.
+Lemma ltb_R a b : nltb Rops a b = if Rlt_dec a b then true else false.
+Proof. reflexivity. Qed.
+Ltac all_valid y :=
+  unfold inR; simpl fst; simpl snd; split; [intros _|intros _; split; exact I];
+  destruct (Rle_dec 0 y); try (left; reflexivity); right; nra.
 Lemma R_yj p y : inR (denorm_range Rops KYeoJohnson p) y <-> pwvalid (c0 p) (lmbda p) (c2 p) (2 - lmbda p) y.
 Proof.
-  unfold denorm_range, pwvalid, gvalid. set (l := lmbda p). simpl nltb. change (two Rops) with 2.
-  destruct (Rlt_dec l 0) as [Hn|Hn]; destruct (close0 Rops l) eqn:E0; simpl andb.
-  4: destruct (Rlt_dec 2 l) as [H2|H2]; destruct (close2 Rops l) eqn:E2; simpl andb.
-  1, 3, 4, 6, 7: unfold inR; simpl; split; [intros _|tauto]; destruct (Rle_dec 0 y); try (left; reflexivity);
-    right; nra.
+  unfold denorm_range, pwvalid, gvalid. cbv zeta. set (l := lmbda p). change (two Rops) with 2. change (n0 Rops) with 0. rewrite !ltb_R.
+  assert (forall P : Prop, (false = true \/ P) <-> P) as Hor by (intros P; split; [intros [H|H]; [discriminate|exact H]|auto]).
+  destruct (Rlt_dec l 0) as [Hn|Hn]; destruct (close0 Rops l) eqn:E0; cbn [andb negb].
+  - destruct (Rlt_dec 2 l) as [H2|H2]; [lra|]. cbn [andb negb]. all_valid y.
   - (* l < 0, power branch: (-inf, -1/l) *)
-    unfold inR; simpl. pose proof (inv_neg l Hn). destruct (Rle_dec 0 y) as [Hy|Hy].
-    + rewrite (bound_neg l y Hn). split; [intros [_ H]; right; exact H|intros [H|H]; [discriminate|tauto]].
-    + split; [intros _; right; nra|intros _; split; [exact I|lra]].
-  - (* 2 < l, power branch: (-1/(l-2), inf) *)
-    unfold inR; simpl. assert (0 < l - 2) as Hp by lra. pose proof (inv_pos _ Hp). destruct (Rle_dec 0 y) as [Hy|Hy].
+    unfold inR; simpl fst; simpl snd. pose proof (inv_neg l Hn) as Hi. destruct (Rle_dec 0 y) as [Hy|Hy].
+    + rewrite Hor. change (nneg Rops (ndiv Rops (n1 Rops) l)) with (- (1 / l)). rewrite (bound_neg l y Hn). tauto.
+    + change (nneg Rops (ndiv Rops (n1 Rops) l)) with (- (1 / l)).
+      split; [intros _; right; nra|intros _; split; [exact I|lra]].
+  - destruct (Rlt_dec 2 l) as [H2|H2]; destruct (close2 Rops l) eqn:E2; cbn [andb negb]; try (all_valid y).
+    exfalso. apply close0_true in E0. rewrite Rabs_pos_eq in E0 by lra. lra.
+  - destruct (Rlt_dec 2 l) as [H2|H2]; destruct (close2 Rops l) eqn:E2; cbn [andb negb]; try (all_valid y).
+    (* 2 < l, power branch: (-1/(l-2), inf) *)
+    unfold inR; simpl fst; simpl snd. assert (0 < l - 2) as Hp by lra. pose proof (inv_pos _ Hp) as Hi.
+    change (nneg Rops (ndiv Rops (n1 Rops) (nsub Rops l 2))) with (- (1 / (l - 2))).
+    destruct (Rle_dec 0 y) as [Hy|Hy].
     + split; [intros _; right; nra|intros _; split; [lra|exact I]].
-    + rewrite (bound_pos (l - 2) y Hp). replace (1 + - y * (2 - l)) with (1 + y * (l - 2)) by ring.
-      split; [intros [H _]; right; exact H|intros [H|H]; [discriminate|tauto]].
+    + rewrite Hor. rewrite (bound_pos (l - 2) y Hp). replace (1 + - y * (2 - l)) with (1 + y * (l - 2)) by ring. tauto.
+Qed.
+Lemma R_mod p y : inR (denorm_range Rops KModulus p) y <-> pwvalid (c0 p) (lmbda p) (c0 p) (lmbda p) y.
+Proof.
+  unfold denorm_range, pwvalid, gvalid. cbv zeta. set (l := lmbda p). change (n0 Rops) with 0. rewrite !ltb_R.
+  assert (forall P : Prop, (false = true \/ P) <-> P) as Hor by (intros P; split; [intros [H|H]; [discriminate|exact H]|auto]).
+  destruct (Rlt_dec l 0) as [Hn|Hn]; destruct (close0 Rops l) eqn:E0; cbn [andb negb]; try (all_valid y).
+  unfold inR; simpl fst; simpl snd. pose proof (inv_neg l Hn) as Hi.
+  change (nneg Rops (ndiv Rops (n1 Rops) l)) with (- (1 / l)). change (ndiv Rops (n1 Rops) l) with (1 / l).
+  destruct (Rle_dec 0 y) as [Hy|Hy]; rewrite Hor.
+  - rewrite <- (bound_neg l y Hn). split; [tauto|intros H; split; [lra|exact H]].
+  - rewrite <- (bound_neg l (- y) Hn). split; [intros [H _]; lra|intros H; split; lra].
+Qed.
+
+(* ---------------------------------------------------------------- inverse pairs on the coded ranges *)
+Lemma coreA k p x : inR (norm_range Rops k p) x ->
+  inR (denorm_range Rops k p) (N k p x) /\ D k p (N k p x) = x.
+Proof.
+  destruct k; unfold norm_range; intros [Hlo _]; simpl in Hlo.
+  - split; [split; exact I|reflexivity].
+  - split; [split; exact I|]. simpl. apply exp_ln. exact Hlo.
+  - split; [apply R_boxcox; rewrite N_boxcox; apply gbc_valid; apply Hc0|].
+    rewrite D_boxcox, N_boxcox, gbci_gbc by apply Hc0. apply exp_ln. exact Hlo.
+  - split; [apply R_boxcox; rewrite N_shift; apply gbc_valid; apply Hc0|].
+    rewrite D_shift, N_shift, gbci_gbc by apply Hc0. rewrite exp_ln by lra. ring.
+  - split; [apply R_yj; rewrite N_yj; apply pw_valid; [apply Hc0|apply Hc2]|].
+    rewrite D_yj, N_yj. apply pwi_pw; [apply Hc0|apply Hc2].
+  - split; [apply R_mod; rewrite N_mod; apply pw_valid; apply Hc0|].
+    rewrite D_mod, N_mod. apply pwi_pw; apply Hc0.
+  - split; [apply R_boxcox; rewrite N_manly; apply gbc_valid; apply Hc0|].
+    rewrite D_manly, N_manly. apply gbci_gbc. apply Hc0.
+Qed.
+
+Lemma coreB k p y : inR (denorm_range Rops k p) y ->
+  inR (norm_range Rops k p) (D k p y) /\ N k p (D k p y) = y.
+Proof.
+  destruct k; intros Hy.
+  - split; [split; exact I|reflexivity].
+  - split; [split; [apply exp_pos|exact I]|]. simpl. apply ln_exp.
+  - apply R_boxcox in Hy. split; [split; [rewrite D_boxcox; apply exp_pos|exact I]|].
+    rewrite N_boxcox, D_boxcox, ln_exp. apply gbc_gbci; [apply Hc0|exact Hy].
+  - apply R_boxcox in Hy. split.
+    + rewrite D_shift. unfold norm_range, inR. simpl fst. simpl snd. change (nneg Rops (shift p)) with (- shift p).
+      pose proof (exp_pos (gbci (c0 p) (lmbda p) y)). split; [lra|exact I].
+    + rewrite N_shift, D_shift. replace (exp (gbci (c0 p) (lmbda p) y) - shift p + shift p)
+        with (exp (gbci (c0 p) (lmbda p) y)) by ring.
+      rewrite ln_exp. apply gbc_gbci; [apply Hc0|exact Hy].
+  - apply R_yj in Hy. split; [split; exact I|]. rewrite N_yj, D_yj. apply pw_pwi; [apply Hc0|apply Hc2|exact Hy].
+  - apply R_mod in Hy. split; [split; exact I|]. rewrite N_mod, D_mod. apply pw_pwi; [apply Hc0|apply Hc0|exact Hy].
+  - apply R_boxcox in Hy. split; [split; exact I|]. rewrite N_manly, D_manly. apply gbc_gbci; [apply Hc0|exact Hy].
+Qed.
+
+Lemma core_incr k p x1 x2 : inR (norm_range Rops k p) x1 -> inR (norm_range Rops k p) x2 -> x1 < x2 ->
+  N k p x1 < N k p x2.
+Proof.
+  destruct k; unfold norm_range; intros [H1 _] [H2 _] H; simpl in H1, H2.
+  - exact H.
+  - simpl. apply ln_increasing; assumption.
+  - rewrite !N_boxcox. apply gbc_incr; [apply Hc0|]. apply ln_increasing; assumption.
+  - rewrite !N_shift. apply gbc_incr; [apply Hc0|]. apply ln_increasing; lra.
+  - rewrite !N_yj. apply pw_incr; [apply Hc0|apply Hc2|exact H].
+  - rewrite !N_mod. apply pw_incr; [apply Hc0|apply Hc0|exact H].
+  - rewrite !N_manly. apply gbc_incr; [apply Hc0|exact H].
+Qed.
+
+(* statements on the model's own (boolean) range tests *)
+Theorem denorm_norm k p x : in_range Rops (norm_range Rops k p) x = true ->
+  normalize Rops k p x = Some (N k p x) /\ denormalize Rops k p (N k p x) = Some x.
+Proof.
+  intros H. pose proof (proj1 (in_range_R _ _) H) as HR. destruct (coreA k p x HR) as [Hd He].
+  apply in_range_R in Hd. unfold normalize, denormalize. rewrite !guarded_R, H, Hd, He. split; reflexivity.
+Qed.
+Theorem norm_denorm k p y : in_range Rops (denorm_range Rops k p) y = true ->
+  denormalize Rops k p y = Some (D k p y) /\ normalize Rops k p (D k p y) = Some y.
+Proof.
+  intros H. pose proof (proj1 (in_range_R _ _) H) as HR. destruct (coreB k p y HR) as [Hd He].
+  apply in_range_R in Hd. unfold normalize, denormalize. rewrite !guarded_R, H, Hd, He. split; reflexivity.
+Qed.
+Theorem strictly_increasing k p x1 x2 :
+  in_range Rops (norm_range Rops k p) x1 = true -> in_range Rops (norm_range Rops k p) x2 = true ->
+  x1 < x2 -> N k p x1 < N k p x2.
+Proof. intros H1 H2. apply core_incr; apply in_range_R; assumption. Qed.
+Theorem image_is_range k p y :
+  (exists x, in_range Rops (norm_range Rops k p) x = true /\ N k p x = y) <->
+  in_range Rops (denorm_range Rops k p) y = true.
+Proof.
+  split.
+  - intros [x [Hx E]]. subst y. apply in_range_R. apply coreA. apply in_range_R. exact Hx.
+  - intros Hy. exists (D k p y). apply in_range_R in Hy. destruct (coreB k p y Hy) as [Hd He].
+    split; [apply in_range_R; exact Hd|exact He].
+Qed.
+
+(* ---------------------------------------------------------------- derivative *)
+Definition exact_branch (k : nkind) (p : npar R) (x : R) : Prop :=
+  match k with
+  | KBoxCox | KBoxCoxShift | KManly | KModulus => c0 p = true -> lmbda p = 0
+  | KYeoJohnson => (0 < x -> c0 p = true -> lmbda p = 0) /\ (x < 0 -> c2 p = true -> lmbda p = 2)
+  | _ => True
+  end.
+
+Lemma dx_R : dx Rops = 1 / 1000000.
+Proof. reflexivity. Qed.
+
+Lemma pwd_yj p x : derivative_raw Rops KYeoJohnson p x = pwd (lmbda p) (2 - lmbda p) x.
+Proof.
+  unfold derivative_raw, pwd. destruct (Rle_dec 0 x) as [[H|H]|H].
+  - rewrite sign_pos by exact H. simpl. rewrite Rabs_pos_eq by lra. rewrite Rmult_1_l.
+    replace (x + 1) with (1 + x) by ring. apply pow_minus1. lra.
+  - subst x. rewrite sign_0. simpl. rewrite Rabs_R0. unfold Rpower. replace (0 + 1) with 1 by ring.
+    replace (1 + 0) with 1 by ring. rewrite ln_1, !Rmult_0_r, exp_0. field.
+  - assert (x < 0) as Hx by lra. rewrite sign_neg by exact Hx. simpl. rewrite Rabs_left by exact Hx.
+    replace (- x + 1) with (1 - x) by ring. replace (-1 * (lmbda p - 1)) with ((2 - lmbda p) - 1) by ring.
+    apply pow_minus1. lra.
+Qed.
+Lemma pwd_mod p x : derivative_raw Rops KModulus p x = pwd (lmbda p) (lmbda p) x.
+Proof.
+  unfold derivative_raw, pwd. simpl. destruct (Rle_dec 0 x) as [H|H].
+  - rewrite Rabs_pos_eq by lra. replace (x + 1) with (1 + x) by ring. apply pow_minus1. lra.
+  - rewrite Rabs_left by lra. replace (- x + 1) with (1 - x) by ring. apply pow_minus1. lra.
+Qed.
+
+Theorem derivative_exact k p x : in_range Rops (norm_range Rops k p) x = true -> exact_branch k p x ->
+  is_derive (N k p) x (derivative_raw Rops k p x).
+Proof.
+  intros HR Hex. apply in_range_R in HR. destruct k; destruct HR as [Hlo _]; simpl in Hlo.
+  - (* identity: the central difference of the identity is 1 *)
+    replace (derivative_raw Rops KIdentity p x) with 1
+      by (unfold derivative_raw; rewrite dx_R; change (two Rops) with 2; simpl; field).
+    apply (is_derive_id x).
+  - replace (derivative_raw Rops KLogNormal p x) with (/ x).
+    + apply (is_derive_ln x Hlo).
+    + unfold derivative_raw. simpl. rewrite Rpower_Ropp, Rpower_1 by exact Hlo. reflexivity.
+  - apply (is_derive_ext (fun t => gbc (c0 p) (lmbda p) (ln (0 + 1 * t)))).
+    { intros t. rewrite N_boxcox. do 2 f_equal. ring. }
+    replace (derivative_raw Rops KBoxCox p x) with (1 * (exp (lmbda p * ln (0 + 1 * x)) / (0 + 1 * x))).
+    + apply lin_ln_derive; [apply Hc0|lra|]. intros H. left. apply Hex. exact H.
+    + unfold derivative_raw. simpl. replace (0 + 1 * x) with x by ring. rewrite Rmult_1_l. symmetry. apply pow_minus1. exact Hlo.
+  - apply (is_derive_ext (fun t => gbc (c0 p) (lmbda p) (ln (shift p + 1 * t)))).
+    { intros t. rewrite N_shift. do 2 f_equal. ring. }
+    replace (derivative_raw Rops KBoxCoxShift p x) with (1 * (exp (lmbda p * ln (shift p + 1 * x)) / (shift p + 1 * x))).
+    + apply lin_ln_derive; [apply Hc0|lra|]. intros H. left. apply Hex. exact H.
+    + unfold derivative_raw. simpl. replace (shift p + 1 * x) with (x + shift p) by ring. rewrite Rmult_1_l. symmetry.
+      apply pow_minus1. lra.
+  - destruct Hex as [HP HN]. apply (is_derive_ext (pw (c0 p) (lmbda p) (c2 p) (2 - lmbda p))).
+    { intros t. symmetry. apply N_yj. }
+    rewrite pwd_yj. apply pw_derive; [apply Hc0|apply Hc2|exact HP|]. intros Hx Hc. rewrite (HN Hx Hc). ring.
+  - apply (is_derive_ext (pw (c0 p) (lmbda p) (c0 p) (lmbda p))).
+    { intros t. symmetry. apply N_mod. }
+    rewrite pwd_mod. apply pw_derive; [apply Hc0|apply Hc0|intros _; exact Hex|intros _; exact Hex].
+  - apply (is_derive_ext (gbc (c0 p) (lmbda p))).
+    { intros t. symmetry. apply N_manly. }
+    replace (derivative_raw Rops KManly p x) with (exp (lmbda p * x)) by (simpl; rewrite (Rmult_comm x); reflexivity).
+    apply gbc_derive; [apply Hc0|exact Hex].
 Qed.
